@@ -50,7 +50,7 @@ def run(prog: Program, rep: Report, tier: str):
         if f is None or f.cls is not c:
             continue
         preds = role.get(c.qualname, set())
-        forms = c01.wire_form(prog, c)
+        forms = c01.wire_form(prog, c, exact=True)
         is_container = bool({p.split(":")[-1] for p in preds} & container_preds) or any(p.startswith("λ:") for p in preds) or (fb is not None and fb.qualname == c.qualname) or bool(K.slots_of(prog, c)) and not c03.is_union_like(prog, f)
         is_noop = preds <= {"isunresolvable", "isnonetype", "isbytestype"} and "passthrough" in forms and len(forms) == 1
         is_literal = "isliteral" in preds
@@ -69,7 +69,13 @@ def run(prog: Program, rep: Report, tier: str):
             rep.held("R06.1", c.qualname, f.loc, f"delegating routine ({sorted(forms)})")
         else:
             bad = forms - SCALAR_OK
-            rep.check(not bad, "R06.1", c.qualname, f.loc, f"scalar row returns {sorted(forms)}", f"scalar row returns {sorted(bad)}, outside the JSON-plain lattice")
+            why = {
+                "cast-raw": "the result of self.origin(val) is handed out as it is: for `class UserId(int)` the marshalled value is a UserId, not an exact int (strict encoders refuse it; as a dict key it is no primitive key)",
+                "str-raw": "the result of str(val) is handed out as it is: a str subclass whose __str__ returns itself (the shape of a 'safe string' class) is emitted as that subclass",
+                "enum-value-unguarded": "`.value` is read off any object: under Union[Status, Money] a Money instance with a `value` field is emitted as that raw attribute (a Decimal), the union never reaching Money's own routine",
+                "pattern-unguarded": "`.pattern` is read off any object: under Union[re.Pattern, Rule] a Rule instance with a `pattern` field is emitted as that raw attribute",
+            }
+            rep.check(not bad, "R06.1", c.qualname, f.loc, f"scalar row returns {sorted(forms)}", f"scalar row returns {sorted(bad)}, outside the JSON-plain lattice" + "".join("; " + why[b] for b in sorted(bad) if b in why))
         # R06.3 aliasing
         if is_container:
             rep.check("passthrough" not in forms, "R06.3", c.qualname, f.loc, "never returns the input object itself", "a container row can return the input object itself (shared mutable container)", detail="alias")
